@@ -747,7 +747,9 @@ func (e *Enc) evalClause(env *SpecEnv, c *Clause) (term string) {
 func (e *Enc) evalClauseSides(env *SpecEnv, c *Clause) (term string, sides []string) {
 	var sd []string
 	env2 := *env
-	env2.side = &sd
+	if !e.noSide {
+		env2.side = &sd
+	}
 	env = &env2
 	defer func() { sides = dedupStrings(sd) }()
 	defer func() {
